@@ -181,9 +181,17 @@ def concretize_text(case, r):
     while case["eol"] == "nofinal" and kinds and kinds[-1] == "blank":
         kinds = kinds[:-1]            # an empty last line without terminator is no line at all
     case = dict(case, kinds=kinds)
+    seen = {}
     for i, k in enumerate(case["kinds"]):
         last = i == len(case["kinds"]) - 1
-        ln, tk = render(k, r, "" if (last and case["eol"] == "nofinal") else eol)
+        term = "" if (last and case["eol"] == "nofinal") else eol
+        if k in seen:
+            # the same line text again (identical bytes up to the terminator): results must not be cached across lines
+            body, tk = seen[k]
+            ln = body + term
+        else:
+            ln, tk = render(k, r, term)
+            seen[k] = (ln[: len(ln) - len(term)] if term else ln, tk)
         lines.append(ln)
         toks.append(tk)
     return lines, toks
